@@ -297,13 +297,14 @@ Definition load_agree (fb lv : val) : bool :=
 (** [saved_agree tbl fb lv]: [fb] is a file written by the real [save] for the table [tbl] (ids =
     positions): it parses completely (no trailing byte), re-encoding the parsed entries in the order the
     file has them gives the same bytes (so the writer is [mp_encode] up to the map's iteration order:
-    minimal-width integers, array keys), the loaded map is the table, and the real loader read the same *)
+    minimal-width integers, array keys), no key occurs twice, the loaded map is the table, and the real loader
+    read the same *)
 Definition saved_agree (tbl : list mbytes) (fb lv : val) : bool :=
   load_agree fb lv &&
   match mp_parse (v_list v_n fb) with
   | Some (es, []) =>
       nlist_eqb (mp_encode es) (v_list v_n fb)
-      && Nat.eqb (length es) (length tbl)
-      && match table_of_items (fm_items es) with Some t => tbl_eqb t tbl | None => false end
+      && entries_eqb (fm_items es) es
+      && match table_of_items es with Some t => tbl_eqb t tbl | None => false end
   | _ => false
   end.
